@@ -107,8 +107,21 @@ def do_process(sp, w, m, ids, when, fault_allowed):
     try:
         w.process(dt)
         failed = False
+        if getattr(m, 'ghost', False):
+            m.ghost = False
     except Boom:
         failed = True
+    except KeyError as ex:
+        if getattr(m, 'ghost', False) and ex.args == ('ghost',):
+            # the documented error for deleting an entity that does not exist; it must not repeat
+            m.ghost = False
+            FAULT['armed'] = False
+            CASCADE['phase'] = False
+            sp.cover('ghost-frame-failed')
+            m.recovering = True     # entities served before the KeyError were already notified in that frame
+            return do_process(sp, w, m, ids, when + ' (after the ghost KeyError)', fault_allowed)
+        FAULT['armed'] = False
+        sp.fail('process-raises', '%s: process() raised %r' % (when, ex), recovering=not fault_allowed)
     except Exception as ex:         # noqa
         FAULT['armed'] = False
         import traceback
@@ -172,7 +185,7 @@ def m_recovering(m):
     return getattr(m, 'recovering', False)
 
 
-def h_defer(sp, L=3, K=2, ids=(1, 2), fault=True, procs=1, build=False, cascade=False):
+def h_defer(sp, L=3, K=2, ids=(1, 2), fault=True, procs=1, build=False, cascade=False, ghost=False):
     del LOG[:]
     FAULT.update(at=None, count=0, armed=False, fired=False)
     CASCADE.update(kind=None, target=None, fired=False, phase=False)
@@ -185,7 +198,7 @@ def h_defer(sp, L=3, K=2, ids=(1, 2), fault=True, procs=1, build=False, cascade=
     if fault and sp.flag('inject-fault'):
         FAULT['at'] = sp.int('fault-position')
         sp.assume(FAULT['at'] >= 0)
-    n_ops = 6
+    n_ops = 7 if ghost else 6
     if build:
         # shape I: a state built through the public API from symbolic choices (reachable by construction)
         for e in ids:
@@ -210,6 +223,15 @@ def h_defer(sp, L=3, K=2, ids=(1, 2), fault=True, procs=1, build=False, cascade=
     def step_ops(step):
         op = sp.choose(n_ops, 'op%d' % step)
         when = 'step %d' % step
+        if op == 6:
+            # delete_entity of an id that owns nothing (user error, documented KeyError at the next process):
+            # that frame may fail, the frame after it must not
+            sp.note("delete_entity('ghost')")
+            w.delete_entity('ghost')
+            sp.cover('ghost-deleted')
+            m.ghost = True
+            observe(sp, w, m, ids, when)
+            return
         if op == 5:
             sp.note('process()')
             ok = do_process(sp, w, m, ids, when, fault_allowed=True)
@@ -325,8 +347,11 @@ TIERS = {
     'quick': [('defer', dict(L=3, K=1)),
               ('defer', dict(L=1, K=2, build=True, cascade=True, fault=False), dict(required=['cascade-immediate', 'cascade-deferred', 'frame-deletes'])),
               ('defer', dict(L=1, K=1, build=True, ids=(0, '')), dict(required=['delete-deferred', 'frame-deletes', 'id-reused'])),
+              ('defer', dict(L=2, K=2, build=True, ghost=True, fault=False, ids=(1,)),
+               dict(required=['ghost-deleted', 'ghost-frame-failed', 'frame-deletes'])),
               ('defer', dict(L=1, K=1, build=True), dict(required=['delete-deferred', 'frame-deletes', 'frame-failed', 'recovered']))],
-    'thorough': [('defer', dict(L=4, K=2)), ('defer', dict(L=2, K=2, build=True, cascade=True, fault=False),
+    'thorough': [('defer', dict(L=4, K=2)), ('defer', dict(L=2, K=2, build=True, ghost=True, fault=False),
+                  dict(required=['ghost-deleted', 'ghost-frame-failed', 'frame-deletes', 'delete-deferred'])), ('defer', dict(L=2, K=2, build=True, cascade=True, fault=False),
                   dict(required=['cascade-immediate', 'cascade-deferred', 'frame-deletes', 'delete-deferred'])), ('defer', dict(L=3, K=1, ids=(0, ''))), ('defer', dict(L=2, K=2, build=True, procs=2)), ('defer', dict(L=5, K=1, ids=(1,), procs=2)),
                  ('defer', dict(L=3, K=3, procs=2))],
 }
@@ -345,6 +370,7 @@ RULE = ('one evaluation = one feasible path (operation sequence x fault position
 BOUNDS = {'quick': 'L=3 operations + 1 trailing frame, ids 1,2, classes H, H2(H), N, one processor, one fault; built state (4 component sets or none per id, dead bits) + L=1 + 1 frame',
           'thorough': 'L=4 + 2 frames; L=5 + 1 frame with one id and two processors; L=3 + 3 frames'}
 ASSUMPTIONS = [
+    'ghost variant: delete_entity of an id that owns nothing is a user error whose documented KeyError surfaces at the next process(); that frame may fail or not, but the frame after it must complete (a failed process never repeats forever)',
     'cascade variant: one on_remove callback may delete another entity (deferred or immediate) during the deletion phase; a deferred cascade may be served in the same frame or in the next one (both accepted)',
     'entity ids may be falsy (0 and the empty string)',
     'delete_entity is only called on entities that own components at that moment ("existed when delete_entity was called")',
